@@ -59,13 +59,19 @@ CHECKS = {
     "C16": ("proof", "Theorem (SpecShift.v): for SOI-free grammars run commutes with shifting positions, hence "
             "parse(text, k) = shift k (parse(text[k:], 0)) and the prefix is irrelevant; counter-example with SOI. "
             "Check: both statements on the implementation in four modes for every k > 0.", "4.C16", PARSE_TECH),
-    "C01": ("proof", "INTERIM proof content: the observation compared (tree / furthest-failure position) is a function of "
-            "(grammar, rule, input, start) and fuel-independent, and well-formed. The property itself is decided on "
-            "every run by differential execution: IG vs I and OG vs O on G1 (every expression kind in every nesting "
-            "context x start modifier x trivia configuration, all inputs to the bound, several start positions), G2, "
-            "G3, with I and IG each also tied to the extracted reference semantics; generated source must load and "
-            "generate() twice must be byte-identical.", "4.C01",
-            "extracted reference semantics + direct I-vs-IG / O-vs-OG differential over a template-complete space"),
+    "C01": ("proof", "Theorem C01_generated_equals_interpreter (GenProof.v, no axioms): for the model of the interpreter "
+            "(Interp.v) and the statement-level model of the generated code (Gen.v: every generate() template, "
+            "generate_parse_trivia, in-place built-ins), for every grammar, start rule, input, start position: whenever both "
+            "finish they return the same tree / final position / stack, or fail with the same furthest position, or both "
+            "report the undefined rule; neither reaches an inconsistent state; both finish whenever the reference semantics "
+            "does (C01_both_terminate), in particular for every grammar with a termination certificate; the generated code "
+            "refines the reference semantics and releases every checkpoint. Side conditions enforced by the exporter (silent "
+            "rules are not $/!, in-place built-ins are plain silent rules). Tie on every run: mode I = Interp.iparse and mode "
+            "IG = Gen.gparse EXACTLY (tree, failure position, expected/unexpected sets) on the complete depth-1 kernel of G1 "
+            "(every atom in every context), depth-2 samples, G2, G3, stack families; plus the property itself IG vs I and OG "
+            "vs O, generated source loads, generate() twice byte-identical. Outside the model: compile/exec and the module "
+            "prelude.", "4.C01",
+            "refinement proof between two machine models + exact differential tie of each model to its execution mode"),
     "C02": ("proof", "Theorems: unroll is sound by definition of the reference semantics (bounded repetitions are their "
             "unrolled sequences); skip's side condition. Other passes: decided differentially on every run (O vs I, OG vs "
             "IG) on grammars built around each rewrite trigger under the default pipeline, each single pass and seeded "
